@@ -83,6 +83,22 @@ def replay_problem(cls, opts, inputs, outputs=None, mode="auto"):
     return q
 
 
+def reset_inputs(q, inputs, outputs=None):
+    """moves a live replay problem to another input point and re-runs it (the same component instance is linearised at several
+    points in a row, as an optimiser does)"""
+    from openmdao.core.implicitcomponent import ImplicitComponent
+
+    with warnings.catch_warnings():
+        warnings.simplefilter("ignore")
+        for k, v in inputs.items():
+            q.set_val("c." + k, v)
+        if outputs is not None and isinstance(q.model.c, ImplicitComponent):
+            for k, v in outputs.items():
+                q.set_val("c." + k, v)
+        q.run_model()
+    return q
+
+
 def reported_jacobian(q):
     """what the framework receives: total derivatives of the one-component problem, {(of, wrt): 2-D array}"""
     c = q.model.c
